@@ -159,12 +159,16 @@ func (l *List) LRange(key string, start, end int) (list [][]byte, err error) {
 		end = size + end
 	}
 
-	if start < 0 && end > 0 {
+	if start < 0 && end >= 0 {
 		start = size + start
 	}
 
 	if start < 0 && end < 0 {
 		start, end = size+start, size+end
+	}
+
+	if start < 0 {
+		start = 0
 	}
 
 	if end >= size {
